@@ -149,4 +149,21 @@ def Graph.deltaConformityH (dg : Graph) (tab : LabelTableH) (hier : Hierarchies)
         | .ok r => .ok (some r)
     | _, _ => .ok none
 
+/-- one flat key per (exponent, profile) of a result: position of the exponent × number of profiles + position of the
+    profile.  Every successful call returns the exponents and the profiles in the same order (`C20H_result`), so a key
+    denotes the same (exponent, profile) at every instant. -/
+def flattenRes (np : Nat) (r : List (Nat × List (List Nat × List (Node × Rat)))) : List (Nat × List (Node × Rat)) :=
+  (r.zipIdx).flatMap (fun (ai : (Nat × List (List Nat × List (Node × Rat))) × Nat) =>
+    (ai.1.2.zipIdx).map (fun (pj : (List Nat × List (Node × Rat)) × Nat) => (ai.2 * np + pj.2, pj.1.2)))
+
+/-- `sliding_delta_conformity(dg, delta, alphas, labels, profile_size, hierarchies, path_type)`: the series of every
+    (exponent, profile, node), keyed by `flattenRes` -/
+def Graph.slidingDeltaConformityH (dg : Graph) (tab : LabelTableH) (hier : Hierarchies) (delta : Int) (alphas : List Nat)
+    (labels : List Nat) (profileSize : Nat) (ptype : Nat) : Except Err (List (Nat × List (Node × List (Int × Rat)))) :=
+  slidingOf dg.ids delta (fun t =>
+    match dg.deltaConformityH tab hier t delta alphas labels profileSize ptype with
+    | .error e => .error e
+    | .ok none => .ok none
+    | .ok (some r) => .ok (some (flattenRes (profilesOf labels profileSize).length r)))
+
 end Dynetx
